@@ -17,6 +17,7 @@ type Layout interface {
 	CommentIndent(cur int) int
 	TrailingComment() string        // "" or a comment appended to a statement's last line
 	IfOneLine() bool                // write an eligible if on one line
+	ArmBlockOnArrowLine() bool      // a multi-line arm body starts on the `->` line, aligned under its first token
 	RhsNextLine() bool              // put a let's right-hand side on the next line
 	ArmNextLine() bool              // put a match arm's body on the next line
 	PipeBreak() bool                // break the line before this |>
@@ -35,6 +36,7 @@ func (Canonical) OwnLineComment() string         { return "" }
 func (Canonical) CommentIndent(cur int) int      { return cur }
 func (Canonical) TrailingComment() string        { return "" }
 func (Canonical) IfOneLine() bool                { return false }
+func (Canonical) ArmBlockOnArrowLine() bool      { return false }
 func (Canonical) RhsNextLine() bool              { return false }
 func (Canonical) ArmNextLine() bool              { return false }
 func (Canonical) PipeBreak() bool                { return false }
@@ -507,8 +509,32 @@ func (p *Printer) arm(head string, body *Block, indent int) {
 		p.trail()
 		return
 	}
+	if !single && isASCII(head) && p.L.ArmBlockOnArrowLine() {
+		// the body block starts on the `->` line and continues at the column of its first token
+		col := indent + len(head) + 1
+		start := len(p.lines)
+		p.block(body, col)
+		pad := strings.Repeat(" ", col)
+		if len(p.lines) > start && strings.HasPrefix(p.lines[start], pad) {
+			first := p.lines[start][col:]
+			if first != "" && first[0] != ' ' && !strings.HasPrefix(first, "//") && !strings.HasPrefix(first, "/*") {
+				p.lines[start] = strings.Repeat(" ", indent) + head + " " + first
+				return
+			}
+		}
+		p.lines = p.lines[:start] // a blank or comment line came first: write it the ordinary way
+	}
 	p.line(indent, head)
 	p.block(body, indent+p.L.Indent())
+}
+
+func isASCII(s string) bool {
+	for i := 0; i < len(s); i++ {
+		if s[i] >= 0x80 {
+			return false
+		}
+	}
+	return true
 }
 
 func (p *Printer) funcDecl(f *FuncDecl, indent int) {
